@@ -38,7 +38,7 @@ func formatImportAlias(pkg string) string {
 // standard library that the generated code imports.
 func isImportedByGeneratedCode(alias string) bool {
 	switch alias {
-	case "json", "errors", "fmt", "math", "reflect", "strconv", "strings", "time":
+	case "base64", "json", "errors", "fmt", "math", "reflect", "strconv", "strings", "time":
 		return true
 	}
 
